@@ -30,6 +30,34 @@ class NFA:
         return len(self.eps) - 1
 
 
+_CATS = {}
+
+
+def _category_ranges(cat):
+    """code point ranges of a character category (\\d \\s \\w and their negations) of a str pattern without re.ASCII,
+    computed from the interpreter's own predicates over all code points (once)"""
+    if cat not in _CATS:
+        pred = {sc.CATEGORY_DIGIT: str.isdecimal, sc.CATEGORY_NOT_DIGIT: lambda c: not c.isdecimal(),
+                sc.CATEGORY_SPACE: str.isspace, sc.CATEGORY_NOT_SPACE: lambda c: not c.isspace(),
+                sc.CATEGORY_WORD: lambda c: c.isalnum() or c == '_',
+                sc.CATEGORY_NOT_WORD: lambda c: not (c.isalnum() or c == '_')}.get(cat)
+        if pred is None:
+            raise Unsupported('category %r' % (cat,))
+        rs = []
+        start = None
+        for cp in range(MAXCP):
+            if pred(chr(cp)):
+                if start is None:
+                    start = cp
+            elif start is not None:
+                rs.append((start, cp - 1))
+                start = None
+        if start is not None:
+            rs.append((start, MAXCP - 1))
+        _CATS[cat] = rs
+    return _CATS[cat]
+
+
 def _charset(items):
     neg = False
     rs = []
@@ -40,6 +68,8 @@ def _charset(items):
             rs.append((av, av))
         elif op is sc.RANGE:
             rs.append(tuple(av))
+        elif op is sc.CATEGORY:
+            rs.extend(_category_ranges(av))
         else:
             raise Unsupported('class item %r' % (op,))
     return ('neg' if neg else 'pos', tuple(sorted(rs)))
